@@ -389,6 +389,32 @@ func checkCodec(c *core.Check, which string) {
 				}
 			}
 		}
+		// C08 through the server: every sixth object / array schema also is the request body of an operation
+		if which == "c08" {
+			bg := driver.Group{Pkg: id, Kind: "pipeline", API: driver.APIConfig{}}
+			for k, si := range good[start:end] {
+				tn := fmt.Sprintf("T%d", si)
+				rs := typeSchema[id+"/"+tn]
+				if k%6 != 0 || (rs["k"] != "object" && rs["k"] != "array") {
+					continue
+				}
+				t := []aspec.Seg{{K: "lit", S: "body"}, {K: "lit", S: strings.ToLower(tn)}}
+				op := simpleOp("POST", t)
+				op.Body = aspec.Body{K: "json", Schema: &aspec.Schema{K: "ref", To: tn}, Req: true}
+				a.Paths = append(a.Paths, aspec.PathItem{Template: t, Ops: []aspec.Op{op}})
+				for _, dc := range docsFor(rs, rng, 3) {
+					caseN++
+					cid := fmt.Sprintf("b%d", caseN)
+					bs, _ := json.Marshal(dc.doc)
+					bg.Cases = append(bg.Cases, driver.ReqCase{ID: cid, Method: "POST", Path: "/body/" + strings.ToLower(tn), Headers: map[string][]string{"Content-Type": {"application/json"}},
+						Body: string(bs), HasBody: true, Script: driver.Script{Parse: true}})
+					metas[cid] = meta{typ: id + "/" + tn, sch: rs, doc: bs, mut: dc.mut, prop: dc.prop}
+				}
+			}
+			if len(bg.Cases) > 0 {
+				groups = append(groups, bg)
+			}
+		}
 		specs[id] = a
 		jobs = append(jobs, a.Job(id))
 		groups = append(groups, g)
@@ -422,6 +448,16 @@ func checkCodec(c *core.Check, which string) {
 			c.HarnessError(fmt.Sprintf("driver: %v %v", e["err"], e["driverError"]))
 			return
 		}
+		if e["ev"] == "Parse" || e["ev"] == "Done" {
+			cid, _ := e["case"].(string)
+			if m, ok := metas[cid]; ok {
+				if _, ok := byType[m.typ]; !ok {
+					typeOrder = append(typeOrder, m.typ)
+				}
+				byType[m.typ] = append(byType[m.typ], e)
+			}
+			continue
+		}
 		if e["ev"] != "Codec" {
 			continue
 		}
@@ -443,10 +479,28 @@ func checkCodec(c *core.Check, which string) {
 	nEnc, nDec := 0, 0
 	for _, tn := range typeOrder {
 		add(map[string]any{"ev": "Schema", "id": tn, "s": typeSchema[tn]})
+		parsedCase := map[string]bool{}
 		for _, e := range byType[tn] {
 			cid, _ := e["case"].(string)
 			m := metas[cid]
 			pan, _ := e["panic"].(string)
+			if e["ev"] == "Parse" {
+				parsedCase[cid] = true
+				ok, _ := e["ok"].(bool)
+				derr, _ := e["err"].(string)
+				names := m.prop != "" && (strings.Contains(derr, "'"+m.prop+"'") || strings.Contains(derr, "\""+m.prop+"\""))
+				add(map[string]any{"ev": "Body", "case": cid, "type": tn, "mut": m.mut, "prop": m.prop, "reached": true, "ok": ok, "names": names, "panic": trunc(pan, 200)})
+				info[cid] = map[string]any{"type": tn, "schema": m.sch, "request_body": string(m.doc), "mutation": m.mut, "property": m.prop, "parse_error": derr, "panic": trunc(pan, 600)}
+				nDec++
+				continue
+			}
+			if e["ev"] == "Done" {
+				if !parsedCase[cid] {
+					add(map[string]any{"ev": "Body", "case": cid, "type": tn, "mut": m.mut, "prop": m.prop, "reached": false, "ok": false, "names": false, "panic": trunc(pan, 200)})
+					info[cid] = map[string]any{"type": tn, "request_body": string(m.doc), "note": "the request never reached Parse()", "status": e["status"], "panic": trunc(pan, 600)}
+				}
+				continue
+			}
 			proj := func(key string) map[string]any {
 				if e[key] == nil {
 					return noV
